@@ -280,6 +280,50 @@ theorem tls13_connection_exact (H : Crypto.Prims) (P : Prims) (L : SealLaws P) (
   rw [hmerge d, htr2, htr1]
   cases d <;> rfl
 
+/-- `Script12` WITHOUT the condition on the first byte of clear-text handshake records: RFC 5246 §6.2.1 lets an endpoint
+    fragment handshake messages over records at any point, so a continuation record may begin with any byte -/
+def Script12Loose (l : List DirEv) : Prop :=
+  ∃ (cl : List Bytes) (rest : List DirEv), l = cl.map .clear ++ .ccs :: rest ∧
+    ∀ e ∈ rest, ∃ typ pt f, e = .enc typ pt f ∧ (typ = 22 ∨ typ = 23)
+
+set_option linter.unusedVariables false in
+/-- `tls12_connection_exact` at full RFC strength (any fragmentation of the clear-text handshake). FALSE for the tool:
+    `tls12_connection_exact_counterexample`; `tls12_connection_exact` is the partial result, the extra hypothesis being
+    the first-byte condition inside `Script12`. -/
+def tls12_connection_exact_statement : Prop := ∀ (H : Crypto.Prims) (P : Prims) (L : SealLaws P) (kl : List Keylog.Key)
+    (info : Nat → Pipeline.Info) (c : Pipeline.Conn) (hmeta : c.opts.metadata = false)
+    -- the connection as sent
+    (t : Transcript) (hch : t.ch.WellFormed) (hsh : t.sh.WellFormed) (hrc : t.rvC.length = 2) (hrs : t.rvS.length = 2)
+    (hv : t.ver.length = 2) (hcomp : t.sh.compressionMethod = 0)
+    (v : Session.Ver) (hvne : v ≠ .tls13) (hneg : Negotiated t.rvS t.sh v)
+    -- suite table (C14), key log (C09), key schedule (C15), as in `genKeys_installs_rel_legacy`
+    (ps : CipherSuite.Params) (hres : CipherSuite.resolve (Bytes.beNat t.sh.cipherSuite) = some ps)
+    (a : Pipeline.SuiteArgs) (hargs : Pipeline.suiteArgs ps = some a)
+    (f : Keylog.Key) (fs : List Keylog.Key)
+    (hfound : (Keylog.findSessionSecrets kl (Pipeline.natsOfBytes t.ch.random)).filter
+        (fun k => k.label == Keylog.s_CLIENT_RANDOM || k.label == Keylog.s_RSA) = f :: fs)
+    (secrets : List KeySchedule.Secret) (hsec : Pipeline.secretsOf false (f :: fs) = some secrets)
+    (k : KeySchedule.Keys6)
+    (hgen : KeySchedule.generateKeys H (Pipeline.ksVersion v) a.ks secrets t.ch.random t.sh.random
+      = .ok (some (.legacy k)))
+    (cls : CipherClass)
+    (hcls : classOf a.bulk (Pipeline.rlVersion v)
+      (Session.extGet ((t.sh.extensions.getD []).map extPair) [0x00, 0x16]).isSome a.tagLen = some cls)
+    (hmac : 0 < (KeySchedule.macSuite H a.ks.mac).outLen)
+    (hck : KeyMatOk cls k.clientKey k.clientIv) (hsk : KeyMatOk cls k.serverKey k.serverIv)
+    -- what follows the hellos
+    (hsc : Script12Loose t.cEvs) (hss : Script12Loose t.sEvs)
+    (hokc : ∀ e ∈ t.cEvs, EvOk1 cls (KeySchedule.macSuite H a.ks.mac).outLen e)
+    (hoks : ∀ e ∈ t.sEvs, EvOk1 cls (KeySchedule.macSuite H a.ks.mac).outLen e)
+    (hwr : ∀ d, ∀ r ∈ t.records P L cls (legacySnd k) d, WholeRecord r)
+    (hlen : t.cEvs.length + t.sEvs.length ≤ seqLimit)
+    -- the capture
+    (hdel : DeliveredInOrder info c (t.stream P L cls (legacySnd k)))
+    (hcausal : Causal12 (connRecs info c)),
+    ∃ frames, Pipeline.connOut H P info c kl = some (frames.map (Pipeline.addressed c.opts c)) ∧
+      Spec.reassemble frames = some (Spec.TlsConnection.plainOf t.cEvs, Spec.TlsConnection.plainOf t.sEvs) ∧
+      TimesFromCarriers info c frames
+
 -- ====================================================================== non-vacuity: one TLS 1.2 connection, all hypotheses
 namespace Ex
 open TLX.Props.C01Pipeline.Ex2 TLX.Props.C01.Ex
@@ -426,6 +470,126 @@ theorem tls12_instance :
   have e : (Spec.TlsConnection.plainOf t0.cEvs, Spec.TlsConnection.plainOf t0.sEvs) = (hi, k16) := by decide
   rw [e] at h
   exact h
+
+/-- COUNTEREXAMPLE INPUT. As `t0`, but the server's clear-text handshake record begins with byte 01 (e.g. the
+    continuation fragment of a Certificate message cut after a byte 01): `handle_tls_handshake_record` takes it for a
+    ClientHello, `can_decrypt` becomes False and nothing is exported.
+    ClientHello, ServerHello; the client: ClientKeyExchange, CCS, Finished, "hi", an empty record; the server:
+    Certificate…ServerHelloDone in one record, CCS, Finished, 16 bytes -/
+def t1 : Transcript :=
+  { ch := ch0, sh := sh12, rvC := [3, 1], rvS := [3, 3], ver := [3, 3],
+    cEvs := [.clear [16, 0, 0, 2, 9, 9], .ccs, .enc 22 (20 :: 0 :: 0 :: 12 :: k16.take 12) fr, .enc 23 hi fr,
+             .enc 23 [] fr],
+    sEvs := [.clear [1, 0, 0, 3, 1, 2, 3, 14, 0, 0, 0], .ccs, .enc 22 (20 :: 0 :: 0 :: 12 :: k16.take 12) fr,
+             .enc 23 k16 fr] }
+
+def recsOfDir1 (d : Bool) : List Bytes := t1.records Cipher.Toy.prims Cipher.Toy.laws cls0 (legacySnd k0) d
+def rC1 (i : Nat) : Bytes := (recsOfDir1 false).getD i []
+def rS1 (i : Nat) : Bytes := (recsOfDir1 true).getD i []
+
+/-- the capture: (from server?, payload, offset in the direction's stream). The ClientHello in two segments; the
+    ServerHello and the certificate flight coalesced; the client's application data BEFORE the server's CCS/Finished
+    (False Start) and retransmitted later; a server record split over two segments; the client's stream wraps 2^32. -/
+def cap1 : List (Bool × Bytes × Nat) :=
+  [(false, (rC1 0).take 20, 0), (false, (rC1 0).drop 20, 20), (true, rS1 0 ++ rS1 1, 0),
+   (false, rC1 1 ++ rC1 2 ++ rC1 3, 50), (false, rC1 4, 112), (true, rS1 2 ++ rS1 3, 73), (true, (rS1 4).take 10, 124),
+   (false, rC1 4, 112), (true, (rS1 4).drop 10, 134), (false, rC1 5, 143)]
+def pktsCap1 : List MainLoop.Pkt := (List.range cap1.length).map fun i =>
+  mkPkt (cap1.getD i (false, [], 0)).1 (cap1.getD i (false, [], 0)).2.1 i
+def infoCap1 (tag : Nat) : Pipeline.Info :=
+  ⟨(isnOf (cap1.getD tag (false, [], 0)).1 + (cap1.getD tag (false, [], 0)).2.2) % 4294967296, 1000 + tag, [1], [2], false⟩
+def connCap1 : Pipeline.Conn := ⟨⟨[443], false, false, false, true, []⟩, sEp, cEp, [2], [1], false, pktsCap1⟩
+
+/-- the cut of each direction's stream that the capture shows -/
+def chunksOf1 (d : Bool) : List Bytes :=
+  if d then [rS1 0 ++ rS1 1, rS1 2 ++ rS1 3, (rS1 4).take 10, (rS1 4).drop 10]
+  else [(rC1 0).take 20, (rC1 0).drop 20, rC1 1 ++ rC1 2 ++ rC1 3, rC1 4, rC1 5]
+
+theorem delivered1 : DeliveredInOrder infoCap1 connCap1
+    (t1.stream Cipher.Toy.prims Cipher.Toy.laws cls0 (legacySnd k0)) := by
+  intro d
+  cases d
+  · refine ⟨⟨isnOf false, ?_⟩, by decide +kernel⟩
+    have hcut : IsCut (t1.stream Cipher.Toy.prims Cipher.Toy.laws cls0 (legacySnd k0) false) (chunksOf1 false) :=
+      ⟨by decide +kernel, by decide +kernel⟩
+    have h := Delivers.cut (k := 0) (isn := isnOf false) (chunksOf1 false) hcut
+    -- the retransmitted segment: an exact duplicate behind its original
+    have hd := Delivers.dup (k := 0) (isn := isnOf false)
+      ((segsOf (isnOf false) 0 (chunksOf1 false)).take 3) [] ((segsOf (isnOf false) 0 (chunksOf1 false)).drop 4)
+      ((segsOf (isnOf false) 0 (chunksOf1 false)).getD 3 (0, []))
+      (by
+        have e : (segsOf (isnOf false) 0 (chunksOf1 false)).take 3 ++
+            (segsOf (isnOf false) 0 (chunksOf1 false)).getD 3 (0, []) ::
+              ([] ++ (segsOf (isnOf false) 0 (chunksOf1 false)).drop 4) = segsOf (isnOf false) 0 (chunksOf1 false) := by
+          decide +kernel
+        rw [e]; exact h)
+    have e2 : (dirSegs infoCap1 connCap1.server false connCap1.pkts).map Props.C05.wire =
+        (segsOf (isnOf false) 0 (chunksOf1 false)).take 3 ++
+          (segsOf (isnOf false) 0 (chunksOf1 false)).getD 3 (0, []) ::
+            ([] ++ (segsOf (isnOf false) 0 (chunksOf1 false)).getD 3 (0, []) ::
+              (segsOf (isnOf false) 0 (chunksOf1 false)).drop 4) := by decide +kernel
+    unfold InOrder
+    rw [e2]; exact hd
+  · refine ⟨⟨isnOf true, ?_⟩, by decide +kernel⟩
+    have hcut : IsCut (t1.stream Cipher.Toy.prims Cipher.Toy.laws cls0 (legacySnd k0) true) (chunksOf1 true) :=
+      ⟨by decide +kernel, by decide +kernel⟩
+    have e2 : (dirSegs infoCap1 connCap1.server true connCap1.pkts).map Props.C05.wire
+        = segsOf (isnOf true) 0 (chunksOf1 true) := by decide +kernel
+    unfold InOrder
+    rw [e2]; exact Delivers.cut _ hcut
+
+theorem causal1 : Causal12 (connRecs infoCap1 connCap1) :=
+  ⟨(connRecs infoCap1 connCap1).take 1, (connRecs infoCap1 connCap1).drop 1, (List.take_append_drop 1 _).symm,
+    by decide +kernel, by decide +kernel,
+    ((connRecs infoCap1 connCap1).drop 1).headD (⟨[], []⟩, false), ((connRecs infoCap1 connCap1).drop 1).tail,
+    by decide +kernel, by decide +kernel⟩
+
+/-- the full-strength statement fails: every hypothesis holds for `t1` and its capture, but the tool exports nothing -/
+theorem tls12_connection_exact_counterexample : ¬ tls12_connection_exact_statement := by
+  intro hst
+  have hres : CipherSuite.resolve (Bytes.beNat t1.sh.cipherSuite) = some ps0 := by decide +kernel
+  have hargs : Pipeline.suiteArgs ps0 = some a0 := some_getD _ _ (by decide +kernel)
+  have hfound : (Keylog.findSessionSecrets kl0 (Pipeline.natsOfBytes t1.ch.random)).filter
+      (fun k => k.label == Keylog.s_CLIENT_RANDOM || k.label == Keylog.s_RSA) = f0 :: [] := by decide +kernel
+  have hsec : Pipeline.secretsOf false (f0 :: []) = some secrets0 := by decide +kernel
+  have hgen : KeySchedule.generateKeys hashes (Pipeline.ksVersion .tls12) a0.ks secrets0 t1.ch.random t1.sh.random
+      = .ok (some (.legacy k0)) :=
+    gen_eq (KeySchedule.generateKeys hashes .tls12 a0.ks secrets0 cr0 sr0) k0 (by decide +kernel)
+  have hcls : classOf a0.bulk (Pipeline.rlVersion .tls12)
+      (Session.extGet ((t1.sh.extensions.getD []).map extPair) [0x00, 0x16]).isSome a0.tagLen = some cls0 := by
+    decide +kernel
+  have hmac : 0 < (KeySchedule.macSuite hashes a0.ks.mac).outLen := by decide +kernel
+  have hck : KeyMatOk cls0 k0.clientKey k0.clientIv := by decide +kernel
+  have hsk : KeyMatOk cls0 k0.serverKey k0.serverIv := by decide +kernel
+  have hokc : ∀ e ∈ t1.cEvs, EvOk1 cls0 (KeySchedule.macSuite hashes a0.ks.mac).outLen e := by decide +kernel
+  have hoks : ∀ e ∈ t1.sEvs, EvOk1 cls0 (KeySchedule.macSuite hashes a0.ks.mac).outLen e := by decide +kernel
+  have hwr : ∀ d, ∀ r ∈ t1.records Cipher.Toy.prims Cipher.Toy.laws cls0 (legacySnd k0) d, WholeRecord r := by
+    intro d; cases d <;> decide +kernel
+  have hlen : t1.cEvs.length + t1.sEvs.length ≤ seqLimit := by decide +kernel
+  have hsc : Script12Loose t1.cEvs := ⟨[[16, 0, 0, 2, 9, 9]], _, rfl, by
+    intro e he
+    simp only [List.mem_cons, List.mem_nil_iff, or_false] at he
+    rcases he with rfl | rfl | rfl <;> exact ⟨_, _, _, rfl, by decide⟩⟩
+  have hss : Script12Loose t1.sEvs := ⟨[[1, 0, 0, 3, 1, 2, 3, 14, 0, 0, 0]], _, rfl, by
+    intro e he
+    simp only [List.mem_cons, List.mem_nil_iff, or_false] at he
+    rcases he with rfl | rfl <;> exact ⟨_, _, _, rfl, by decide⟩⟩
+  have h := hst hashes Cipher.Toy.prims Cipher.Toy.laws kl0 infoCap1 connCap1 rfl t1
+    (by decide) (by decide) rfl rfl rfl rfl .tls12 (by decide) (by unfold Negotiated; decide)
+    ps0 hres a0 hargs f0 [] hfound secrets0 hsec k0 hgen cls0 hcls hmac hck hsk hsc hss hokc hoks hwr hlen
+    delivered1 causal1
+  obtain ⟨frames, h1, h2, _⟩ := h
+  have hout : Pipeline.connOut hashes Cipher.Toy.prims infoCap1 connCap1 kl0 = some [] := by decide +kernel
+  rw [hout] at h1
+  have hf : frames = [] := by
+    cases frames with
+    | nil => rfl
+    | cons f fs => simp at h1
+  rw [hf] at h2
+  have : Spec.TlsConnection.plainOf t1.cEvs = [] := by
+    have := congrArg (fun o => o.map Prod.fst) h2
+    simpa [Spec.reassemble] using this.symm
+  exact absurd this (by decide)
 
 -- … consistent with evaluating the model on the same packets
 example : view (Pipeline.connOut hashes Cipher.Toy.prims infoCap connCap kl0)
